@@ -249,7 +249,9 @@ class simplify_chained_calls(FuncADLNodeTransformer):
 
         captured_arg = func_f.args.args[0].arg
         captured_body = func_f.body
-        new_select = function_call("SelectMany", [captured_body, self.visit(func_g)])
+        # Simplify the inner SelectMany as a whole, so that what f produces and what g takes
+        # apart (tuples, dictionaries) can meet.
+        new_select = self.visit(function_call("SelectMany", [captured_body, func_g]))
         new_select_lambda = lambda_build(captured_arg, new_select)
         new_select_many = function_call("SelectMany", [seq, new_select_lambda])
         return new_select_many
